@@ -273,7 +273,11 @@ class FaultPlan:
 
     def __init__(self, faults: list[dict]):
         self.by_key = {}
+        self.by_path = {}  # persistent faults addressed by path: the file is unreadable throughout
         for f in faults:
+            if "path" in f:
+                self.by_path[(f["seam"], f["path"])] = f
+                continue
             self.by_key[(f["op"], f["seam"], f["nth"])] = f
         S.armed = len(faults)
         self.count = {}
@@ -282,6 +286,11 @@ class FaultPlan:
         key = (S.cur_op, seam)
         n = self.count.get(key, 0)
         self.count[key] = n + 1
+        fp = self.by_path.get((seam, canon(str(path)))) if self.by_path else None
+        if fp is not None:
+            S.fired.append({"kind": fp["kind"], "seam": seam, "op": S.cur_op, "nth": n, "path": canon(str(path))})
+            ev("fault", fp["kind"], seam, S.cur_op, "path", canon(str(path)))
+            return fp
         f = self.by_key.get((S.cur_op, seam, n))
         if f is not None and f.get("_done"):
             f = None
